@@ -1,6 +1,7 @@
 package props
 
 import (
+	"context"
 	"github.com/zitadel/saml/pkg/vhook"
 	"fmt"
 	"net/http"
@@ -38,9 +39,9 @@ type c10Fault struct {
 	Kind string `json:"kind"`
 }
 
-var c10KeyKinds = []string{world.FaultError, world.FaultCtxDeadline, world.FaultErrWithValue, world.FaultNilRecord, world.FaultNoCert, world.FaultNoKey, world.FaultEmptyCert, world.FaultGarbageCert, world.FaultZeroKey, world.FaultMismatch, world.FaultForeignKey}
-var c10ErrKinds = []string{world.FaultError, world.FaultCtxDeadline, world.FaultCtxCanceled, world.FaultErrWithValue}
-var c10UserKinds = []string{world.FaultError, world.FaultCtxDeadline, world.FaultCtxCanceled, world.FaultPartial, world.FaultErrWithValue}
+var c10KeyKinds = []string{world.FaultError, world.FaultCtxDeadline, world.FaultClientGone, world.FaultErrWithValue, world.FaultNilRecord, world.FaultNoCert, world.FaultNoKey, world.FaultEmptyCert, world.FaultGarbageCert, world.FaultZeroKey, world.FaultMismatch, world.FaultForeignKey}
+var c10ErrKinds = []string{world.FaultError, world.FaultCtxDeadline, world.FaultCtxCanceled, world.FaultClientGone, world.FaultErrWithValue}
+var c10UserKinds = []string{world.FaultError, world.FaultCtxDeadline, world.FaultCtxCanceled, world.FaultClientGone, world.FaultPartial, world.FaultErrWithValue}
 
 // soft kinds are not in the statement's list of failures (the answer is well-typed but useless): only the
 // no-panic / no-Success-assertion clauses apply to them.
@@ -226,7 +227,15 @@ func c10Recovery(sc c10Scenario, plan []c10Fault, baseline string) (string, []st
 	for _, f := range plan {
 		w.Store.FaultAt(f.Op, f.Occ, f.Kind)
 	}
+	for _, f := range plan {
+		if f.Kind == world.FaultClientGone {
+			ctx, cancel := context.WithCancel(req.Context())
+			req = req.WithContext(ctx)
+			w.Store.CancelFn = cancel
+		}
+	}
 	w.Do(req)
+	w.Store.ClientBack()
 	_, req2 := sc.Build()
 	if strings.HasPrefix(sc.Name, "callback-") && !strings.Contains(sc.Name, "unknown") {
 		// the rebuilt request names the record of a fresh world; both worlds number their records identically
@@ -276,8 +285,18 @@ func c10Build(sc c10Scenario, plan []c10Fault, primed bool) (*world.World, *http
 
 // c10BuildJump: as c10Build; with primed and jump > 0 the (process-wide) clock is advanced by jump after the priming request -
 // the caller runs such cases one at a time and pins the clock again afterwards.
-func c10BuildJump(sc c10Scenario, plan []c10Fault, primed bool, jump time.Duration) (*world.World, *http.Request) {
-	w, req := sc.Build()
+func c10BuildJump(sc c10Scenario, plan []c10Fault, primed bool, jump time.Duration) (w *world.World, req *http.Request) {
+	defer func() {
+		// a plan with a "client gone" entry: the judged request carries a cancellable context which the storage cancels at that call
+		for _, f := range plan {
+			if f.Kind == world.FaultClientGone && req != nil {
+				ctx, cancel := context.WithCancel(req.Context())
+				req = req.WithContext(ctx)
+				w.Store.CancelFn = cancel
+			}
+		}
+	}()
+	w, req = sc.Build()
 	if !primed {
 		for _, f := range plan {
 			w.Store.FaultAt(f.Op, f.Occ, f.Kind)
@@ -649,6 +668,45 @@ func runC10(ctx Ctx) int {
 	run.Set("scenarios", names)
 	run.Sample(c10Replay{Scenario: "callback-post-done", Plan: []c10Fault{{"SetUserinfoWithUserID", 1, world.FaultError}}})
 	run.Sample(c10Replay{Scenario: "metadata-signing-rsa-sha256", Plan: []c10Fault{{"GetResponseSigningKey", 1, world.FaultNoCert}, {"GetMetadataSigningKey", 1, world.FaultNilRecord}}, Primed: true})
+	// the request's context is already cancelled / past its deadline when the handler starts (the client went away while the request
+	// was queued): every storage call answers with the context's error; fresh and after a successful request
+	{
+		nGone := 0
+		for _, sc := range scs {
+			for _, kind := range []string{"cancelled", "deadline-exceeded"} {
+				for _, primed := range []bool{false, true} {
+					w, req := sc.Build()
+					if primed {
+						w.Do(req)
+						_, req = sc.Build()
+						w.Store.ResetFired()
+						w.OccBase = map[string]int{}
+						for _, op := range []string{"GetEntityByID", "GetEntityIDByAppID", "GetResponseSigningKey", "GetMetadataSigningKey", "GetCA", "CreateAuthRequest", "AuthRequestByID", "SetUserinfoWithUserID", "SetUserinfoWithLoginName", "Health"} {
+							w.OccBase[op] = w.Store.Occ(op)
+						}
+					}
+					ctx, cancel := context.WithCancel(req.Context())
+					if kind == "deadline-exceeded" {
+						ctx, cancel = context.WithDeadline(req.Context(), time.Unix(1, 0))
+					}
+					cancel()
+					w.Store.ClientGoneNow()
+					o := c10Judge(sc, w, w.Do(req.WithContext(ctx)))
+					nGone++
+					run.Evaluations.Add(1)
+					run.Outcome(fmt.Sprintf("%s/context-%s-before-the-handler/%s", sc.Kind, kind, o.Class))
+					seen := map[string]bool{}
+					for _, c := range o.Clauses {
+						if !seen[c] {
+							seen[c] = true
+							run.Violate(c, sc.Name, []string{"scenario=" + sc.Name, "request-context-" + kind + "-before-the-handler-starts", fmt.Sprintf("after-a-successful-request=%v", primed)}, o.Detail, nil)
+						}
+					}
+				}
+			}
+		}
+		run.Set("context_gone_before_handler_cases", nGone)
+	}
 	// time: (successful request) ; the clock moves on ; (same request while one storage call fails) - whatever the IdP kept from the
 	// success (a document, a key, a decision) with whatever lifetime must not be served instead of failing. One case at a time (the
 	// clock is process-wide); every scenario x every call of the judged request x every failure kind x the intervals below.
